@@ -86,7 +86,7 @@ where
         loop {
             match self.records.next() {
                 Some(r) => {
-                    if intersects(&r, self.interval) {
+                    if intersects(&r, self.reference_sequence_id, self.interval) {
                         *record = r;
                         return Ok(1);
                     }
@@ -194,7 +194,16 @@ where
     }
 }
 
-fn intersects(record: &sam::alignment::RecordBuf, region_interval: Interval) -> bool {
+fn intersects(
+    record: &sam::alignment::RecordBuf,
+    reference_sequence_id: usize,
+    region_interval: Interval,
+) -> bool {
+    // A multi-reference slice also holds records of other reference sequences.
+    if record.reference_sequence_id() != Some(reference_sequence_id) {
+        return false;
+    }
+
     match (record.alignment_start(), record.alignment_end()) {
         (Some(start), Some(end)) => {
             let alignment_interval = (start..=end).into();
